@@ -138,6 +138,99 @@ theorem span_times_sorted (it : Iter Rat) (fuel s : Nat) (hD : 0 ≤ it.spanDur)
           obtain ⟨d, hd, rfl⟩ := ha; exact key d hd
       · simp at hb'
 
+
+/-! ## across spans -/
+
+theorem spanStartTime_rat (it : Iter Rat) (s : Nat) :
+    spanStartTime ratArith it s = it.start + (s : Rat) * it.spanDur := by
+  simp [spanStartTime, ratArith]
+
+/-- Every event of span `s` lies in `[span_start, span_start + span_duration]` (ℚ, duration ≥ 0). -/
+theorem span_event_bounds (it : Iter Rat) (fuel s : Nat) (hD : 0 ≤ it.spanDur) (ds : List Rat)
+    (hds : spanTickDists ratArith it fuel = some ds) :
+    ∀ e ∈ spanTicks ratArith it s ds ++ spanRepeat ratArith it s,
+      it.start + (s : Rat) * it.spanDur ≤ e.time ∧
+      e.time ≤ it.start + ((s + 1 : Nat) : Rat) * it.spanDur := by
+  obtain ⟨_, hb⟩ := spanTickDists_rat_sorted it fuel ds hds
+  have hS1 : it.start + ((s + 1 : Nat) : Rat) * it.spanDur =
+      it.start + (s : Rat) * it.spanDur + it.spanDur := by push_cast; ring
+  rw [hS1]
+  have key : ∀ d ∈ ds, it.start + (s : Rat) * it.spanDur ≤ (tickEvent ratArith it s d).time ∧
+      (tickEvent ratArith it s d).time ≤ it.start + (s : Rat) * it.spanDur + it.spanDur := by
+    intro d hd
+    have hl : 0 < it.len := lt_of_lt_of_le (hb d hd).1 (hb d hd).2
+    have hd1 : d / it.len ≤ 1 := by rw [div_le_one hl]; exact (hb d hd).2
+    have hd0 : 0 ≤ d / it.len := div_nonneg (hb d hd).1.le hl.le
+    by_cases hs : (s % 2 == 1) = true
+    · rw [tickEvent_time_odd it s d hs, spanStartTime_rat]
+      have h1 := mul_le_mul_of_nonneg_right (show 1 - d / it.len ≤ 1 by linarith) hD
+      have h2 := mul_nonneg (show 0 ≤ 1 - d / it.len by linarith) hD
+      constructor <;> linarith
+    · have hs' : (s % 2 == 1) = false := by simpa using hs
+      rw [tickEvent_time_even it s d hs', spanStartTime_rat]
+      have h1 := mul_le_mul_of_nonneg_right hd1 hD
+      have h2 := mul_nonneg hd0 hD
+      constructor <;> linarith
+  intro e he
+  rcases List.mem_append.mp he with he | he
+  · unfold spanTicks at he
+    split at he
+    · rw [List.mem_reverse, List.mem_map] at he
+      obtain ⟨d, hd, rfl⟩ := he; exact key d hd
+    · rw [List.mem_map] at he
+      obtain ⟨d, hd, rfl⟩ := he; exact key d hd
+  · unfold spanRepeat at he
+    split at he
+    · rw [List.mem_singleton] at he
+      subst he
+      have hrep : (repeatPoint ratArith s (spanStartTime ratArith it s) it.spanDur).time =
+          spanStartTime ratArith it s + it.spanDur := rfl
+      rw [hrep, spanStartTime_rat]
+      constructor <;> linarith
+    · simp at he
+
+/-- Every event of the spans `s, s+1, …` lies at or after the start of span `s` and at or before
+the end of the last of them. -/
+theorem midEvents_bounds (it : Iter Rat) (fuel : Nat) (hD : 0 ≤ it.spanDur) (ds : List Rat)
+    (hds : spanTickDists ratArith it fuel = some ds) :
+    ∀ (n s : Nat), ∀ e ∈ midEvents ratArith it ds n s,
+      it.start + (s : Rat) * it.spanDur ≤ e.time ∧
+      e.time ≤ it.start + ((s + n : Nat) : Rat) * it.spanDur := by
+  intro n
+  induction n with
+  | zero => intro s e he; simp [midEvents] at he
+  | succ n ih =>
+    intro s e he
+    unfold midEvents at he
+    have hstep : (0 : Rat) ≤ (n : Rat) * it.spanDur := mul_nonneg (Nat.cast_nonneg n) hD
+    rcases List.mem_append.mp he with he | he
+    · have := span_event_bounds it fuel s hD ds hds e he
+      refine ⟨this.1, le_trans this.2 ?_⟩
+      push_cast; nlinarith
+    · have := ih (s + 1) e he
+      refine ⟨le_trans ?_ this.1, ?_⟩
+      · push_cast; nlinarith
+      · rw [show s + (n + 1) = s + 1 + n by omega]; exact this.2
+
+/-- **All ticks and repeats of a slider come out in non-decreasing time order** (ℚ, duration ≥ 0):
+within a span by `span_times_sorted`, across spans because span `s+1` starts where span `s` ends. -/
+theorem midEvents_sorted (it : Iter Rat) (fuel : Nat) (hD : 0 ≤ it.spanDur) (ds : List Rat)
+    (hds : spanTickDists ratArith it fuel = some ds) :
+    ∀ (n s : Nat), (midEvents ratArith it ds n s).Pairwise (fun a b => a.time ≤ b.time) := by
+  intro n
+  induction n with
+  | zero => intro s; simp [midEvents]
+  | succ n ih =>
+    intro s
+    unfold midEvents
+    rw [List.pairwise_append]
+    refine ⟨?_, ih (s + 1), ?_⟩
+    · exact span_times_sorted it fuel s hD _ (spanEvents_eq ratArith it fuel s ds hds)
+    · intro a ha b hb
+      have h1 := (span_event_bounds it fuel s hD ds hds a ha).2
+      have h2 := (midEvents_bounds it fuel hD ds hds n (s + 1) b hb).1
+      exact le_trans h1 h2
+
 /-! ## permutation invariance of what the attributes read -/
 
 variable {F : Type}
